@@ -66,7 +66,7 @@ def draw_recording(rng, idx, fmt=None):
     if fmt == "saf":
         s["order"] = ["Z", "N", "E"]
         s["east_first"] = rng.random() < 0.4
-        s["north_rot"] = rng.choice([None, 0, 15, 90, 270, 359])
+        s["north_rot"] = rng.choice([None, 0, 15, 90, 270, 359, 12.5, 359.75, 0.25])
         if rng.random() < 0.35:
             s["saf_cols"] = rng.choice(PERMS)     # vertical not on CH0: the reader may refuse, but never mix channels
     if fmt == "minishark":
